@@ -62,7 +62,8 @@ def run_case(case, rec, cid):
 
     def f():
         p = _P[case["parser"]].parse(text, dump_as_parsed=True)
-        return dict(q=proj_trunc(p), trunc=bool(p.truncated), dumped=render.codes(str(p)))
+        return dict(q=proj_trunc(p), trunc=bool(p.truncated), dumped=render.codes(str(p)),
+                    lg=p.get_largest_truncated_property_name() or "", sm=p.get_smallest_missing_property_name() or "")
     st, v = outcome(f)
     if st == "ok":
         rec.ev("ParseTrunc", cid, gt=gt, pz=["unknown", "assumed", "local"][case["parser"]], text=render.codes(text), ok=True, cls="", **v)
@@ -70,7 +71,7 @@ def run_case(case, rec, cid):
         from harness.common import I
         q0 = {k: -1 for k in ("yc", "yd", "mo", "woy", "doy", "dom", "dow", "hh", "mi", "ss")}
         q0.update(hhus=0, mius=0, ssus=0, zh=0, zm=0, zu=True, trunc=True)
-        rec.ev("ParseTrunc", cid, gt=gt, pz=["unknown", "assumed", "local"][case["parser"]], text=render.codes(text), ok=False, cls=type(v).__name__, q=q0, trunc=False, dumped=[])
+        rec.ev("ParseTrunc", cid, gt=gt, pz=["unknown", "assumed", "local"][case["parser"]], text=render.codes(text), ok=False, cls=type(v).__name__, q=q0, trunc=False, dumped=[], lg="", sm="")
     return True
 
 
